@@ -15,11 +15,11 @@ inductive DescOf (c : Cfg) : Nat → Nat → Prop
 
 /-! ### what a step does to the shutdown components -/
 
-/-- `finishRun` is one `finish` step of layer A, `pcB := over`, and the diagnosis -/
+/-- `finishRun` is one `finish` step of layer A and `pcB := over` (the diagnosis was recorded by `exitLoop`) -/
 theorem finishRun_spec {c : Cfg} {st st' : StB} {s : Nat} {x : Exit} {pick : Nat}
     (h : finishRun c st s x pick = some st') :
     ∃ r a', stepA c st.a (.finish s r) = some a' ∧
-      st' = { st with a := a', pcB := setAt st.pcB s .over, failC := setAt st.failC s (x == .critical) } := by
+      st' = { st with a := a', pcB := setAt st.pcB s .over } := by
   unfold finishRun at h
   split at h
   · cases h
